@@ -26,6 +26,7 @@ func excluded() map[string]bool {
 
 func gen(rt *rapid.T) lang.Case {
 	p := lang.FullProfile()
+	p.Moods = true
 	p.Exclude = excluded()
 	return lang.GenCase(rt, p)
 }
